@@ -1,6 +1,7 @@
 import FastorModel.Driver.Common
 import FastorModel.Model.Einsum
 import FastorModel.Model.Matmul
+import FastorModel.Model.Network
 /- `einsum` command of the driver -/
 namespace Fastor.Driver
 open Fastor Fastor.Einsum
@@ -69,5 +70,37 @@ def runEinsum (kv : List (String × String)) : String := Id.run do
     let nn := prod p.dJ
     let vh := (List.range (m * nn)).foldl (fun h q => Fp.hash h (a (q / nn) * b (q % nn))) (0 : UInt64)
     return s!"{hdr} VAL={hex vh}"
+
+end Fastor.Driver
+
+namespace Fastor.Driver
+open Fastor Fastor.Einsum Fastor.Network
+
+/-- `einsumn n=3 I0=.. d0=.. I1=.. d1=.. I2=.. d2=..` -/
+def runEinsumN (kv : List (String × String)) : String := Id.run do
+  let some n := getN kv "n" | return "bad-op"
+  let mut ops : List Operand := []
+  for k in List.range n do
+    let some si := getS kv s!"I{k}" | return "bad-op"
+    let some sd := getS kv s!"d{k}" | return "bad-op"
+    ops := ops ++ [⟨parseList si, parseList sd⟩]
+  let toks : Nat → List Fp := fun k => (List.range (prod (ops.getD k default).dims)).map (Fp.ofTok (k + 1))
+  let decl := declared ops
+  if getN kv "opmin" == some 0 then
+    let (r, x) := directVals ops ((List.range n).map toks)
+    let vh := x.foldl (fun h v => Fp.hash h v) (0 : UInt64)
+    return s!"VAR=-1 DIMS={showList decl.dims} RIDX={showList r.idx} RDIMS={showList r.dims} VAL={hex vh}"
+  match ops with
+  | [A, B, C] =>
+    let pl := triplet A B C
+    let (r, x) := eval3 A B C (toks 0) (toks 1) (toks 2)
+    let vh := x.foldl (fun h v => Fp.hash h v) (0 : UInt64)
+    return s!"VAR={pl.variant} DIMS={showList decl.dims} RIDX={showList r.idx} RDIMS={showList r.dims} VAL={hex vh}"
+  | [A, B, C, D] =>
+    let pl := quartet A B C D
+    let (r, x) := eval4 A B C D (toks 0) (toks 1) (toks 2) (toks 3)
+    let vh := x.foldl (fun h v => Fp.hash h v) (0 : UInt64)
+    return s!"VAR={pl.variant} DIMS={showList decl.dims} RIDX={showList r.idx} RDIMS={showList r.dims} VAL={hex vh}"
+  | _ => return "bad-op"
 
 end Fastor.Driver
